@@ -220,6 +220,7 @@ class SymBool:
 
 
 POW_MAX = 12
+FORMAT_CONCRETIZE = False
 
 
 class SymInt:
@@ -305,7 +306,12 @@ class SymInt:
         return str(self.concretize())
 
     def __format__(self, spec):
-        return format(self.concretize(), spec)
+        # f-strings in log / error messages must not enumerate values (an
+        # unbounded term would never finish); harnesses whose subject is
+        # formatted output (DOT export) switch this on
+        if FORMAT_CONCRETIZE:
+            return format(self.concretize(), spec)
+        return '<sym>'
 
 
 class SymProd(SymInt):
